@@ -129,9 +129,7 @@ def generate(rng, tier):
     # the configuration of a middleware object is read at call time: public attributes reassigned between the uses of ONE set
     # of objects, uses on one library after another, uses that raise (c14_reconf.py).  Appended last.
     from props import c14_reconf
-    import os as _os
-    if not _os.environ.get("C14_TMP_NO_RECONF"):
-        cases += c14_reconf.cases(rng, tier, good, adm_name, name_forms)
+    cases += c14_reconf.cases(rng, tier, good, adm_name, name_forms)
     return cases
 
 
